@@ -36,6 +36,16 @@ def global_name(ex, name, mod):
         return Builtin('exc:' + name)
     if name == 'vector':
         return Builtin('vector')
+    for mn in ('types', 'simulator', 'lineage', 'inference'):
+        try:
+            em = getattr(ex.program.module(mn), 'enums', {})
+        except KeyError:
+            continue
+        if name in em:
+            return ModRef('enum:%s:%s' % (mn, name))
+        for en, items in em.items():
+            if name in items:
+                return items[name]
     if name in ('True', 'False', 'None'):
         return {'True': True, 'False': False, 'None': None}[name]
     if name == 'NotImplemented':
@@ -71,6 +81,12 @@ def imported_name(ex, mod, name):
 
 
 def module_attr(ex, m, attr, line):
+    if m.name.startswith('enum:'):
+        _, mn, en = m.name.split(':')
+        items = ex.program.module(mn).enums[en]
+        if attr not in items:
+            ex.raise_exc('AttributeError', attr, line)
+        return items[attr]
     if m.name == 'numpy':
         if attr == 'inf' or attr == 'Inf' or attr == 'infty':
             return INF
@@ -145,6 +161,12 @@ def value_attr(ex, o, attr, line):
             return (o.msg,)
     if isinstance(o, T):
         return BuiltinMethod(o, attr)
+    if isinstance(o, Stub):
+        if attr in o.attrs:
+            return o.attrs[attr]
+        if attr in o.methods:
+            return StubMethod(o, attr)
+        raise Unsupported('stub %s has no attribute %s (line %s)' % (o.name, attr, line))
     handler = ex.ext_attr_handlers.get(type(o).__name__)
     if handler is not None:
         return handler(ex, o, attr, line)
@@ -678,6 +700,36 @@ def call_numpy(ex, fn, args, kwargs, line):
         ex.note_write(('A', arrays.root_of(dst).oid), dst.name)
         dst.term = src.term
         return None
+    if fn == 'concatenate':
+        parts = list(a0)
+        if not all(isinstance(x, Arr) and x.ndim == 1 for x in parts):
+            raise Unsupported('np.concatenate of non-1-D operands (line %s)' % line)
+        lens = [x.shape[0] for x in parts]
+        conc = all(isinstance(n, int) or (isinstance(n, T) and n.is_const()) for n in lens)
+        elem = REAL if any(x.elem == REAL for x in parts) else parts[0].elem
+        if conc:
+            t = tm.constarr(tm.ArraySort(INT, elem), tm.mk_real(0) if elem == REAL else tm.mk_int(0))
+            pos = 0
+            nanmask = None
+            if any(getattr(x, 'nan', None) is not None for x in parts):
+                nanmask = tm.constarr(tm.ArraySort(INT, BOOL), tm.FALSE)
+            for x in parts:
+                for j in range(ex.concrete_int(x.shape[0])):
+                    v = tm.select(x.term, tm.mk_int(j))
+                    t = tm.store(t, tm.mk_int(pos), tm.to_real(v) if elem == REAL else v)
+                    if nanmask is not None and getattr(x, 'nan', None) is not None:
+                        nanmask = tm.store(nanmask, tm.mk_int(pos), tm.select(x.nan, tm.mk_int(j)))
+                    pos += 1
+            r = Arr(t, [pos], elem, 'ndarray', 'concat')
+            r.nan = nanmask
+            return r
+        if len(parts) != 2:
+            raise Unsupported('np.concatenate of %d symbolic-length arrays' % len(parts))
+        a, b = parts
+        n1 = to_term(a.shape[0])
+        return arrays.pointwise(ex, tm.add(n1, to_term(b.shape[0])), 'concat', elem,
+                                lambda j: tm.ite(tm.lt(j, n1), tm.to_real(tm.select(a.term, j)) if elem == REAL else tm.select(a.term, j),
+                                                 tm.to_real(tm.select(b.term, tm.sub(j, n1))) if elem == REAL else tm.select(b.term, tm.sub(j, n1))))
     if fn == 'isscalar':
         return is_num(a0)
     if fn == 'prod':
@@ -714,14 +766,23 @@ def array_from_list(ex, v, kwargs, line):
             return arrays.zeros(ex, [0], REAL, 'arr0')
         if all(is_num(x) or isinstance(x, Fraction) for x in v):
             elem = REAL
-            if all(isinstance(x, int) or (isinstance(x, T) and x.sort == INT) for x in v) and \
+            if all((isinstance(x, int) and not isinstance(x, bool)) or (isinstance(x, T) and x.sort == INT) for x in v) and \
                     not (isinstance(kwargs.get('dtype'), Builtin) and 'float' in kwargs['dtype'].name):
                 elem = INT
             t = tm.constarr(tm.ArraySort(INT, elem), tm.mk_real(0) if elem == REAL else tm.mk_int(0))
+            nanmask = None
             for i, x in enumerate(v):
+                if isinstance(x, float) and x != x:
+                    if nanmask is None:
+                        nanmask = tm.constarr(tm.ArraySort(INT, BOOL), tm.FALSE)
+                    nanmask = tm.store(nanmask, tm.mk_int(i), tm.TRUE)
+                    x = ex.fresh('nanval', REAL)
+                    elem_is_real = True
                 xt = to_term(x)
                 t = tm.store(t, tm.mk_int(i), tm.to_real(xt) if elem == REAL else xt)
-            return Arr(t, [len(v)], elem, 'ndarray', 'arr')
+            r = Arr(t, [len(v)], elem, 'ndarray', 'arr')
+            r.nan = nanmask
+            return r
         if all(isinstance(x, (list, tuple)) for x in v):
             rows = [array_from_list(ex, list(x), kwargs, line) for x in v]
         elif all(isinstance(x, Arr) for x in v):
